@@ -12,8 +12,13 @@ import LexVerif.Props.C01Trunc
 
 `numberToFloat_final` / `C01_main_slow`: for every untruncated decimal input of a non-`compact` build,
 `parseFloatAlgoModel slowModel = parseFloatModel` (i.e. `Spec.litBits` of the digit content), provided the estimates
-Eisel–Lemire can return for the input lie in `SlowDomain` (input-dependent capacity / range side conditions of the
-big-integer model; vacuous whenever `compute_float` decides).
+Eisel–Lemire can return for the input lie in `SlowDomain`.
+
+Then everything is discharged: `C01_decimal_correct` (untruncated inputs: `NumberExact` from the syntax model,
+`SlowDomain` from `lemire_estimate_facts`), `C01_decimal_correct_all` (truncated inputs the two-pass wrapper decides),
+and **`C01_decimal_correct_slow`** — every input of a non-`compact` decimal build, any number of digits, no residual
+hypothesis (`Props.C01Trunc`: what `lemire` hands to the slow path for a truncated mantissa; `Props.C01Slow`:
+`truncation_invariant_proved`, the `b = +∞` case). `C01_decimal_full : Prop` adds `compact` builds.
 -/
 namespace LexVerif.Props.C01Final
 open LexVerif.Spec LexVerif.Model LexVerif.Model.ParseFloatAlgo
@@ -475,6 +480,22 @@ theorem C01_decimal_correct_slow (feats : Features) (hcompact : feats.compact = 
       hclass hr hb o hdp isPartial s _ h256 hlen n cnt hp hmany
     exact numberToFloat_truncated hF ⟨feats, fmt, false⟩ hcompact hr hb n hmany hs hN hw hw1 hwlt hq
       hE1 hE2 hl1 hl2
+
+/-- non-vacuity: the standard format of the default build satisfies every hypothesis -/
+example (s : List Nat) (h256 : ∀ x ∈ s, x < 256) (hlen : s.length < 2 ^ 60) :
+    parseFloatAlgoModel slowModel {} Format.standard {} false FTy.f64 s =
+      parseFloatModel {} Format.standard {} false f64 s :=
+  C01_decimal_correct_slow {} rfl Format.standard rfl rfl (Or.inl rfl) {} (Or.inl rfl) false s h256 hlen
+
+/-- the pipeline on 30-digit literals around the half-way point `2^53 + 1` (truncated mantissa, the wrapper does not
+decide, `negative_digit_comp` does): just above rounds up, exactly half-way and just below round to even -/
+example :
+    parseFloatAlgoModel slowModel {} Format.standard {} false FTy.f64
+      (C01Slow.bytesOf "9007199254740993.00000000000001") = "ok 4340000000000001 -" ∧
+    parseFloatAlgoModel slowModel {} Format.standard {} false FTy.f64
+      (C01Slow.bytesOf "9007199254740993.00000000000000") = "ok 4340000000000000 -" ∧
+    parseFloatAlgoModel slowModel {} Format.standard {} false FTy.f64
+      (C01Slow.bytesOf "9007199254740992.99999999999999") = "ok 4340000000000000 -" := by decide +kernel
 
 /-- **full statement** (a `Prop`): the same for `compact` builds too. `C01_decimal_full_partial` proves it for every
 non-`compact` build; for `compact` builds the moderate path is Bellerophon (`bellerophon_sound` is proved), and what is
